@@ -49,6 +49,8 @@ theorem ceases_step (P : Params) (s : St) (c : Choice) :
   | fire => left; simp only [step, ceases]; split <;> rfl
   | startTrace => left; simp only [step, ceases]; split <;> simp
   | other => left; simp only [step, ceases]; split <;> simp
+  | strayTrace => left; simp only [step, ceases]; split <;> simp
+  | spawnStray => left; simp only [step, ceases]; split <;> rfl
   | birth => left; simp only [step, ceases]; split <;> rfl
   | death => left; simp only [step, ceases]; split <;> rfl
 
@@ -58,7 +60,9 @@ theorem ceases_step (P : Params) (s : St) (c : Choice) :
 (2) once a cease trace is in the log, that stays so (no token can appear any more);
 (3) each monitor emits it at most once: the number of cease traces is the number of monitors that got past `ceasing`,
     at most the number of monitors;
-(4) nothing but cease traces follows the first cease trace in the trace stream. -/
+(4) nothing follows the first cease trace in the trace stream but cease traces and traces of goroutines that are not
+    counted by the wait group (`LogOk`); there are none of the latter unless the fact `detached` holds, and then
+    nothing but cease traces follows (`cease_last`). -/
 theorem cease_sound (P : Params) (hn : 1 ≤ P.n) (s : St) (hr : Reachable P s) :
     (∀ c, ceases (step P s c) ≠ ceases s → quiet P s) ∧
     (Trace.cease ∈ s.log → quiet P s) ∧
@@ -86,7 +90,7 @@ theorem wait_sound (P : Params) (hn : 1 ≤ P.n) (s : St) (hr : Reachable P s) :
 /-- the hypothesis of `wait_sound` is needed: a call issued while `StartAll` is still running can find the lock free
 and return true before anything has happened (today's facts, one start event) -/
 example :
-    let P : Params := { subBefore := false, perStart := true, sigCap := 0, subBuf := 10, n := 1 }
+    let P : Params := { subBefore := false, perStart := true, sigCap := 0, subBuf := 10, detached := true, n := 1 }
     let s := run P (init P) [.call, .helper 0, .helper 0]
     (s.waits.map (·.caller)) = [.gotTrue] ∧ s.log = [] := by decide
 
@@ -96,6 +100,12 @@ theorem cease_at_most_monitors (P : Params) (hn : 1 ≤ P.n) (s : St) (hr : Reac
     ceases s ≤ s.mons.length ∧ s.mons.length ≤ P.monitorsPerStartAll := by
   have := monsLen_reachable hn hr
   exact ⟨(cease_sound P hn s hr).2.2.1.2, by omega⟩
+
+/-- the cease-flow trace comes after every other trace of the instance, provided no goroutine outside the wait group
+sends traces (`detached = false`) -/
+theorem cease_last (P : Params) (hn : 1 ≤ P.n) (hd : P.detached = false) (s : St) (hr : Reachable P s) :
+    LogStrict s.log :=
+  logStrict_of (cease_sound P hn s hr).2.2.2 (noStray_reachable hd hr).2
 
 /-! ## Liveness as bounded progress, under the three facts
 
@@ -149,13 +159,13 @@ def MissedStartWitness (P : Params) : Prop :=
     ∀ sched, ceases (run P s sched) = 0 ∧ (∀ x ∈ (run P s sched).waits, x.caller ≠ .gotTrue) ∧
       ¬ Finished (run P s sched)
 
-theorem C02_counterexample_missed_start (ps : Bool) (cap buf : Nat) :
-    MissedStartWitness ⟨false, ps, cap, buf, 1⟩ := by
-  let P : Params := ⟨false, ps, cap, buf, 1⟩
+theorem C02_counterexample_missed_start (ps : Bool) (cap buf : Nat) (det : Bool) :
+    MissedStartWitness ⟨false, ps, cap, buf, det, 1⟩ := by
+  let P : Params := ⟨false, ps, cap, buf, det, 1⟩
   show MissedStartWitness P
-  let P0 : Params := ⟨false, ps, 0, 10, 1⟩
+  let P0 : Params := ⟨false, ps, 0, 10, det, 1⟩
   have hbase : starvedB P0 (run P0 (init P0) missedSched) = true ∧ quiet P0 (run P0 (init P0) missedSched) ∧
-      (run P0 (init P0) missedSched).returned = true := by cases ps <;> decide
+      (run P0 (init P0) missedSched).returned = true := by cases ps <;> cases det <;> decide
   have hrun : run P (init P) missedSched = run P0 (init P0) missedSched := by
     have e1 : run P (init P) missedSched = run { P0 with sigCap := cap } (init P) missedSched :=
       run_subBuf { P0 with sigCap := cap } buf (init P) missedSched (by decide)
@@ -199,8 +209,9 @@ def TwoStartsWitness (P : Params) : Prop :=
   ∀ sched, (run P s sched).returned = false ∧ (run P s sched).log = s.log ∧
     (∀ x ∈ (run P s sched).waits, x.caller ≠ .gotTrue)
 
-theorem C02_counterexample_two_starts (sb : Bool) (cap : Nat) : TwoStartsWitness ⟨sb, true, cap, 10, 2⟩ := by
-  let P : Params := ⟨sb, true, cap, 10, 2⟩
+theorem C02_counterexample_two_starts (sb : Bool) (cap : Nat) (det : Bool) :
+    TwoStartsWitness ⟨sb, true, cap, 10, det, 2⟩ := by
+  let P : Params := ⟨sb, true, cap, 10, det, 2⟩
   show let s10 := run P (init P) (twoStartsPre sb)
     let s := run P s10 (twoStartsLast sb)
     (s10.pending = none ∧ (s10.mons.map (·.buf.length)) = [0, 10] ∧ s10.log.length = 10) ∧
@@ -208,7 +219,7 @@ theorem C02_counterexample_two_starts (sb : Bool) (cap : Nat) : TwoStartsWitness
     ∀ sched, (run P s sched).returned = false ∧ (run P s sched).log = s.log ∧
       (∀ x ∈ (run P s sched).waits, x.caller ≠ .gotTrue)
   intro s10 s
-  let P0 : Params := ⟨sb, true, 0, 10, 2⟩
+  let P0 : Params := ⟨sb, true, 0, 10, det, 2⟩
   have hrun : ∀ sched, (∀ c ∈ sched, c.isHelper = false) → run P (init P) sched = run P0 (init P0) sched :=
     fun sched h => run_sigCap P0 cap (init P) sched h
   have h10 : s10 = run P0 (init P0) (twoStartsPre sb) := hrun _ (by cases sb <;> decide)
@@ -220,7 +231,7 @@ theorem C02_counterexample_two_starts (sb : Bool) (cap : Nat) : TwoStartsWitness
       (run P0 (init P0) (twoStartsPre sb)).log.length = 10) ∧
       (run P0 (init P0) (twoStartsPre sb ++ twoStartsLast sb)).log.length = 11 ∧
       tracerStuckB P0 (run P0 (init P0) (twoStartsPre sb ++ twoStartsLast sb)) 0 1 = true := by
-    cases sb <;> (set_option maxRecDepth 20000 in decide)
+    cases sb <;> cases det <;> (set_option maxRecDepth 20000 in decide)
   have hr : Reachable P s := ⟨twoStartsPre sb ++ twoStartsLast sb, (run_append P _ _ _)⟩
   have hT0 := tracerStuck_of_B hbase.2.2
   have hT : TracerStuck P s 0 1 := by
@@ -247,19 +258,43 @@ def ExpiredWaitWitness (P : Params) : Prop :=
   Reachable P s ∧ quiet P s ∧ Trace.cease ∈ s.log ∧ HelperStuck P s 0 ∧ trueCount s = 0 ∧
   ∀ sched, (run P s sched).lock = some (.helper 0) ∧ trueCount (run P s sched) = 0 ∧ ¬ Finished (run P s sched)
 
-theorem C02_counterexample_expired_wait (sb ps : Bool) : ExpiredWaitWitness ⟨sb, ps, 0, 10, 1⟩ := by
-  let P : Params := ⟨sb, ps, 0, 10, 1⟩
+theorem C02_counterexample_expired_wait (sb ps det : Bool) : ExpiredWaitWitness ⟨sb, ps, 0, 10, det, 1⟩ := by
+  let P : Params := ⟨sb, ps, 0, 10, det, 1⟩
   show let s := run P (init P) expiredSched
     Reachable P s ∧ quiet P s ∧ Trace.cease ∈ s.log ∧ HelperStuck P s 0 ∧ trueCount s = 0 ∧
     ∀ sched, (run P s sched).lock = some (.helper 0) ∧ trueCount (run P s sched) = 0 ∧ ¬ Finished (run P s sched)
   intro s
   have hbase : helperStuckB P s 0 = true ∧ quiet P s ∧ Trace.cease ∈ s.log ∧ trueCount s = 0 := by
-    cases sb <;> cases ps <;> decide
+    cases sb <;> cases ps <;> cases det <;> decide
   have hr : Reachable P s := ⟨expiredSched, rfl⟩
   have hH := helperStuck_of_B hbase.1
   refine ⟨hr, hbase.2.1, hbase.2.2.1, hH, hbase.2.2.2, fun sched => ?_⟩
   obtain ⟨hH', htc⟩ := helperStuck_run (inv_reachable (show (1 : Nat) ≤ 1 by decide) hr) hH sched
   exact ⟨hH'.lock, by rw [htc]; exact hbase.2.2.2, fun hf => by have := hf.2.1; rw [hH'.lock] at this; cases this⟩
+
+def lateTraceSched : List Choice :=
+  [.starter, .starter, .starter, .fire, .spawnStray, .startTrace, .deliver, .death,
+   .mon 0, .mon 0, .mon 0, .mon 0, .mon 0, .mon 0, .strayTrace]
+
+def LateTraceWitness (P : Params) : Prop :=
+  ∃ s, Reachable P s ∧ s.log = [.stray, .cease, .start] ∧ ¬ LogStrict s.log
+
+/-- **D33.** `detached = true` (`harness.run` hands the answer to the token and only then announces the end of the
+boundary phase from its own goroutine): that trace can be broadcast after the cease-flow trace, even with the other
+three facts repaired. -/
+theorem C02_counterexample_late_boundary_trace (ps : Bool) (cap : Nat) :
+    LateTraceWitness ⟨true, ps, cap, 10, true, 1⟩ := by
+  let P : Params := ⟨true, ps, cap, 10, true, 1⟩
+  let P0 : Params := ⟨true, ps, 0, 10, true, 1⟩
+  have hrun : run P (init P) lateTraceSched = run P0 (init P0) lateTraceSched :=
+    run_sigCap P0 cap (init P) lateTraceSched (by decide)
+  have hlog : (run P0 (init P0) lateTraceSched).log = [.stray, .cease, .start] := by cases ps <;> decide
+  have hlogP : (run P (init P) lateTraceSched).log = [.stray, .cease, .start] := by rw [hrun]; exact hlog
+  refine ⟨run P (init P) lateTraceSched, ⟨lateTraceSched, rfl⟩, hlogP, ?_⟩
+  rw [hlogP]
+  intro h
+  have := h.1 (by simp)
+  cases this
 
 /-! ## The statement -/
 
@@ -269,9 +304,10 @@ structure Facts where
   perStart : Bool
   sigCap : Nat
   subBuf : Nat
+  detached : Bool
 deriving DecidableEq, Repr
 
-def Facts.at (F : Facts) (n : Nat) : Params := ⟨F.subBefore, F.perStart, F.sigCap, F.subBuf, n⟩
+def Facts.at (F : Facts) (n : Nat) : Params := ⟨F.subBefore, F.perStart, F.sigCap, F.subBuf, F.detached, n⟩
 
 /-- safety half: the cease trace only when every start event has fired and no token is left, at most once per monitor,
 last in the trace stream; a call (issued after `StartAll` returned) returns true only after it -/
@@ -286,7 +322,9 @@ def Safe (P : Params) : Prop :=
 def C02_statementFor (P : Params) : Prop :=
   Safe P ∧ Live P ∧
   -- exactly once
-  (∀ s, Reachable P s → ceases s ≤ 1)
+  (∀ s, Reachable P s → ceases s ≤ 1) ∧
+  -- after every other trace of the instance
+  (∀ s, Reachable P s → LogStrict s.log)
 
 /-- C02 on the model at the facts `F`: for every number of start events -/
 def C02_statement (F : Facts) : Prop := ∀ n, 1 ≤ n → C02_statementFor (F.at n)
@@ -298,12 +336,13 @@ theorem C02_safe (P : Params) (hn : 1 ≤ P.n) : Safe P := by
   exact ⟨a, b, cease_at_most_monitors P hn s hr, d, fun x hx he hg => (wait_sound P hn s hr x hx he hg).1⟩
 
 /-- the side condition on the facts -/
-def C02ok (F : Facts) : Bool := F.subBefore && !F.perStart && decide (1 ≤ F.sigCap) && decide (1 ≤ F.subBuf)
+def C02ok (F : Facts) : Bool :=
+  F.subBefore && !F.perStart && decide (1 ≤ F.sigCap) && decide (1 ≤ F.subBuf) && !F.detached
 
 /-- C02 for one process: the three facts, where "one monitor" may also come from having a single start event -/
 theorem C02_for_partial (P : Params) (h : P.subBefore = true ∧ P.monitorsPerStartAll = 1 ∧ 1 ≤ P.sigCap)
-    (hb : 1 ≤ P.subBuf) (hn : 1 ≤ P.n) : C02_statementFor P := by
-  refine ⟨C02_safe P hn, complete_live P h hb hn, fun s hr => ?_⟩
+    (hb : 1 ≤ P.subBuf) (hd : P.detached = false) (hn : 1 ≤ P.n) : C02_statementFor P := by
+  refine ⟨C02_safe P hn, complete_live P h hb hn, fun s hr => ?_, cease_last P hn hd⟩
   have := cease_at_most_monitors P hn s hr
   omega
 
@@ -312,85 +351,95 @@ theorem C02_for_partial (P : Params) (h : P.subBefore = true ∧ P.monitorsPerSt
 of calls. -/
 theorem C02_holds_partial (F : Facts) (h : C02ok F = true) : C02_statement F := by
   simp only [C02ok, Bool.and_eq_true, Bool.not_eq_true', decide_eq_true_eq] at h
-  obtain ⟨⟨⟨h1, h2⟩, h3⟩, h4⟩ := h
+  obtain ⟨⟨⟨⟨h1, h2⟩, h3⟩, h4⟩, h5⟩ := h
   intro n hn
-  exact C02_for_partial (F.at n) ⟨h1, by simp [Facts.at, Params.monitorsPerStartAll, h2], h3⟩ h4 hn
+  exact C02_for_partial (F.at n) ⟨h1, by simp [Facts.at, Params.monitorsPerStartAll, h2], h3⟩ h4 h5 hn
 
 /-- with the monitor still created per `StartWith`, C02 holds for processes with ONE start event as soon as the other
 two facts are repaired -/
-theorem C02_single_start_partial (F : Facts) (h1 : F.subBefore = true) (h3 : 1 ≤ F.sigCap) (h4 : 1 ≤ F.subBuf) :
-    C02_statementFor (F.at 1) :=
-  C02_for_partial (F.at 1) ⟨h1, by unfold Params.monitorsPerStartAll Facts.at; split <;> rfl, h3⟩ h4 (Nat.le_refl 1)
+theorem C02_single_start_partial (F : Facts) (h1 : F.subBefore = true) (h3 : 1 ≤ F.sigCap) (h4 : 1 ≤ F.subBuf)
+    (h5 : F.detached = false) : C02_statementFor (F.at 1) :=
+  C02_for_partial (F.at 1) ⟨h1, by unfold Params.monitorsPerStartAll Facts.at; split <;> rfl, h3⟩ h4 h5 (Nat.le_refl 1)
+
+/-- **the full statement is false on the faithful model whenever a fact points the wrong way** (subscriber buffers as
+in the code: 10) -/
+theorem missed_start_at (F : Facts) (h : F.subBefore = false) : MissedStartWitness (F.at 1) := by
+  obtain ⟨sb, ps, cap, buf, det⟩ := F
+  simp only at h; subst h
+  exact C02_counterexample_missed_start ps cap buf det
+
+theorem two_starts_at (F : Facts) (h : F.perStart = true) (hb : F.subBuf = 10) : TwoStartsWitness (F.at 2) := by
+  obtain ⟨sb, ps, cap, buf, det⟩ := F
+  simp only at h hb; subst h; subst hb
+  exact C02_counterexample_two_starts sb cap det
+
+theorem expired_wait_at (F : Facts) (h : F.sigCap = 0) (hb : F.subBuf = 10) : ExpiredWaitWitness (F.at 1) := by
+  obtain ⟨sb, ps, cap, buf, det⟩ := F
+  simp only at h hb; subst h; subst hb
+  exact C02_counterexample_expired_wait sb ps det
+
+theorem late_trace_at (F : Facts) (h1 : F.subBefore = true) (h5 : F.detached = true) (hb : F.subBuf = 10) :
+    LateTraceWitness (F.at 1) := by
+  obtain ⟨sb, ps, cap, buf, det⟩ := F
+  simp only at h1 h5 hb; subst h1; subst h5; subst hb
+  exact C02_counterexample_late_boundary_trace ps cap
+
+/-- processes with one start event: false on the model as soon as the monitor subscribes late or the signal is
+unbuffered, however the monitor is created -/
+theorem C02_single_start_cex (F : Facts) (hb : F.subBuf = 10)
+    (h : ¬ (F.subBefore = true ∧ 1 ≤ F.sigCap ∧ F.detached = false)) : ¬ C02_statementFor (F.at 1) := by
+  intro hst
+  by_cases h1 : F.subBefore = true
+  · by_cases h2 : 1 ≤ F.sigCap
+    · have h5 : F.detached = true := by
+        cases hd : F.detached with
+        | true => rfl
+        | false => exact absurd ⟨h1, h2, hd⟩ h
+      obtain ⟨s, hr, _, hns⟩ := late_trace_at F h1 h5 hb
+      exact hns (hst.2.2.2 s hr)
+    · obtain ⟨hr, hq, _, _, _, hall⟩ := expired_wait_at F (by omega) hb
+      obtain ⟨sched, hf⟩ := (hst.2.1.2 _ hr hq).2.2.2
+      exact (hall sched).2.2 hf
+  · obtain ⟨s, hr, _, hq, _, hall⟩ := missed_start_at F (by simpa using h1)
+    obtain ⟨sched, hf⟩ := (hst.2.1.2 s hr hq).2.2.2
+    exact (hall sched).2.2 hf
 
 /-- **the full statement is false on the faithful model whenever a fact points the wrong way** (subscriber buffers as
 in the code: 10) -/
 theorem C02_cex (F : Facts) (hb : F.subBuf = 10) (h : C02ok F = false) : ¬ C02_statement F := by
   intro hst
-  obtain ⟨sb, ps, cap, buf⟩ := F
-  simp only at hb; subst hb
-  cases sb with
-  | false =>
-    -- D3: one start event
-    obtain ⟨s, hr, _, hq, _, hall⟩ := C02_counterexample_missed_start ps cap 10
-    obtain ⟨sched, hf⟩ := ((hst 1 (Nat.le_refl 1)).2.1.2 s hr hq).2.2.2
-    exact (hall sched).2.2 hf
-  | true =>
-    cases ps with
-    | true =>
-      -- D4: two start events
-      obtain ⟨_, ⟨_, hr, _⟩, hall⟩ := C02_counterexample_two_starts true cap
+  by_cases h1 : F.subBefore = true
+  · by_cases h2 : F.perStart = true
+    · -- D4: two start events
+      obtain ⟨_, ⟨_, hr, _⟩, hall⟩ := two_starts_at F h2 hb
       obtain ⟨sched, hret⟩ := (hst 2 (by decide)).2.1.1 _ hr
       exact Bool.noConfusion ((hall sched).1.symm.trans hret)
-    | false =>
-      cases cap with
-      | zero =>
-        -- D2: one start event, a call that expired
-        obtain ⟨hr, hq, _, _, _, hall⟩ := C02_counterexample_expired_wait true false
+    · by_cases h3 : 1 ≤ F.sigCap
+      · -- D33: the detached boundary-end trace
+        have h5 : F.detached = true := by
+          cases hd : F.detached with
+          | true => rfl
+          | false => simp [C02ok, h1, h2, h3, hb, hd] at h
+        obtain ⟨s, hr, _, hns⟩ := late_trace_at F h1 h5 hb
+        exact hns ((hst 1 (Nat.le_refl 1)).2.2.2 s hr)
+      · -- D2: one start event, a call that expired
+        obtain ⟨hr, hq, _, _, _, hall⟩ := expired_wait_at F (by omega) hb
         obtain ⟨sched, hf⟩ := ((hst 1 (Nat.le_refl 1)).2.1.2 _ hr hq).2.2.2
         exact (hall sched).2.2 hf
-      | succ cap => simp [C02ok] at h
-
-theorem missed_start_at (F : Facts) (h : F.subBefore = false) : MissedStartWitness (F.at 1) := by
-  obtain ⟨sb, ps, cap, buf⟩ := F
-  simp only at h; subst h
-  exact C02_counterexample_missed_start ps cap buf
-
-theorem two_starts_at (F : Facts) (h : F.perStart = true) (hb : F.subBuf = 10) : TwoStartsWitness (F.at 2) := by
-  obtain ⟨sb, ps, cap, buf⟩ := F
-  simp only at h hb; subst h; subst hb
-  exact C02_counterexample_two_starts sb cap
-
-theorem expired_wait_at (F : Facts) (h : F.sigCap = 0) (hb : F.subBuf = 10) : ExpiredWaitWitness (F.at 1) := by
-  obtain ⟨sb, ps, cap, buf⟩ := F
-  simp only at h hb; subst h; subst hb
-  exact C02_counterexample_expired_wait sb ps
-
-/-- processes with one start event: false on the model as soon as the monitor subscribes late or the signal is
-unbuffered, however the monitor is created -/
-theorem C02_single_start_cex (F : Facts) (hb : F.subBuf = 10) (h : ¬ (F.subBefore = true ∧ 1 ≤ F.sigCap)) :
-    ¬ C02_statementFor (F.at 1) := by
-  intro hst
-  by_cases h1 : F.subBefore = true
-  · have h0 : F.sigCap = 0 := by
-      by_cases h2 : 1 ≤ F.sigCap
-      · exact absurd ⟨h1, h2⟩ h
-      · omega
-    obtain ⟨hr, hq, _, _, _, hall⟩ := expired_wait_at F h0 hb
-    obtain ⟨sched, hf⟩ := (hst.2.1.2 _ hr hq).2.2.2
-    exact (hall sched).2.2 hf
-  · obtain ⟨s, hr, _, hq, _, hall⟩ := missed_start_at F (by simpa using h1)
-    obtain ⟨sched, hf⟩ := (hst.2.1.2 s hr hq).2.2.2
+  · -- D3: one start event
+    obtain ⟨s, hr, _, hq, _, hall⟩ := missed_start_at F (by simpa using h1)
+    obtain ⟨sched, hf⟩ := ((hst 1 (Nat.le_refl 1)).2.1.2 s hr hq).2.2.2
     exact (hall sched).2.2 hf
 
-/-- today's code: all three facts point the wrong way -/
-theorem C02_not_holds_today : ¬ C02_statement ⟨false, true, 0, 10⟩ := C02_cex _ rfl (by decide)
+/-- today's code: all four facts point the wrong way -/
+theorem C02_not_holds_today : ¬ C02_statement ⟨false, true, 0, 10, true⟩ := C02_cex _ rfl (by decide)
 
 /-! ## Non-vacuity (tests, not the claim) -/
 
 /-- the hypotheses of `complete_live` / `C02_holds_partial` are satisfiable, and reachable quiet states exist -/
-example : C02ok ⟨true, false, 1, 10⟩ = true := by decide
+example : C02ok ⟨true, false, 1, 10, false⟩ = true := by decide
 example :
-    let P : Params := ⟨true, false, 1, 10, 2⟩
+    let P : Params := ⟨true, false, 1, 10, false, 2⟩
     let s := run P (init P) [.starter, .starter, .starter, .starter, .fire, .fire, .startTrace, .deliver,
       .startTrace, .deliver, .death, .death, .call, .call, .expire 0]
     quiet P s ∧ mu s = 12 ∧ ¬ Finished s := by
@@ -399,14 +448,14 @@ example :
 /-- … and from there a fair schedule finishes: the cease trace is out once, the expired caller stays expired (its helper
 leaves its value in the buffered channel and releases the lock), the other caller gets true -/
 example :
-    let P : Params := ⟨true, false, 1, 10, 2⟩
+    let P : Params := ⟨true, false, 1, 10, false, 2⟩
     let s := run P (init P) [.starter, .starter, .starter, .starter, .fire, .fire, .startTrace, .deliver,
       .startTrace, .deliver, .death, .death, .call, .call, .expire 0,
       .mon 0, .mon 0, .mon 0, .mon 0, .mon 0, .mon 0, .mon 0, .helper 0, .helper 0, .helper 1, .helper 1, .recv 1]
     ceases s = 1 ∧ s.lock = none ∧ s.waits.map (·.caller) = [.expired, .gotTrue] ∧ mu s = 0 := by decide
 /-- hypotheses of `wait_sound`: a non-early call that got true exists in a reachable state -/
 example :
-    let P : Params := ⟨true, false, 1, 10, 1⟩
+    let P : Params := ⟨true, false, 1, 10, false, 1⟩
     let s := run P (init P) [.starter, .starter, .starter, .fire, .startTrace, .deliver, .death,
       .mon 0, .mon 0, .mon 0, .mon 0, .mon 0, .mon 0, .call, .helper 0, .helper 0, .recv 0]
     s.waits.map (fun x => (x.early, x.caller)) = [(false, .gotTrue)] ∧ Trace.cease ∈ s.log := by decide
